@@ -200,3 +200,7 @@ mod tests {
         Ok(())
     }
 }
+
+#[cfg(kani)]
+#[path = "/verif/harness/fasta/reader_sequence.rs"]
+mod verif_kani;
